@@ -576,6 +576,8 @@ def _ancs(n):
 
 def run(ctx: Ctx) -> None:
     rule_reg_ensure(ctx)
+    from .c13 import rule_group_run_closed
+    rule_group_run_closed(ctx)
     rule_index_keys_stay(ctx)
     rule_reg_create(ctx)
     rule_validate_shape(ctx)
